@@ -100,7 +100,13 @@ func gen(r *rng.R, t reflect.Type, depth int) reflect.Value {
 	case reflect.Interface:
 		if t.NumMethod() > 0 {
 			if t.Implements(errType) || errType.Implements(t) {
-				if r.Intn(3) != 0 {
+				switch r.Intn(6) {
+				case 0: // nil interface
+				case 1: // typed nil whose Error() would dereference nil
+					v.Set(reflect.ValueOf((*fn.PtrErr)(nil)))
+				case 2:
+					v.Set(reflect.ValueOf(&fn.PtrErr{Msg: "ptr error"}))
+				default:
 					v.Set(reflect.ValueOf(fn.ErrTable(r.Intn(8))))
 				}
 			}
